@@ -1,21 +1,142 @@
-"""vcheck replay <path>: re-execute a replay file against the real code."""
+"""vcheck replay <path>: re-execute a replay file against the real code (current working tree).
+
+Prints what the real code does on the recorded input / pair / schedule next to what the property
+requires; exit 1 if the violation reproduces, 0 if it does not, 2 on tool failure."""
 import json, os, sys
 import vlib
+from vlib import show
+
+
+def _run(sc, vh, cmd, items, extra=()):
+    fin, fout = sc.path("rp.in"), sc.path("rp.out")
+    vlib.write_ndjson(fin, items)
+    rc, out = vlib.run([vh, cmd, fin, fout] + list(extra), timeout=600)
+    if rc != 0:
+        return None, out
+    return vlib.read_ndjson(fout), out
 
 
 def replay(path):
     rp = json.load(open(path))
+    kind = rp.get("kind", "")
     sc = vlib.Scratch("replay")
     try:
         vh = vlib.build_harness(sc)
-        if rp.get("kind") == "c20.entry":
+        print("property %s: %s" % (rp.get("property"), rp.get("what", "")[:600]))
+        if kind == "c20.entry":
             tfile, jfile = vlib.gen_tables(sc, vh)
             import vchecks
             st = vchecks.c20_entry_status(json.load(open(jfile)), rp["tbl"], rp["key"], rp["val"])
-            print(json.dumps({"entry": rp, "status_in_running_code": st}))
-            return 0
-        rc, out = vlib.run([vh, "replay"], stdin=json.dumps(rp).encode(), timeout=600)
-        print(out)
-        return rc
+            print(json.dumps({"entry": [rp["tbl"], show(rp["key"]), rp["val"]], "status_in_running_code": st}))
+            base = rp["tbl"].startswith("base.")
+            bad = (base and (not st["present"] or st.get("val", rp["val"]) != rp["val"])) or (not base and st["present"])
+            return 1 if bad else 0
+        if kind == "xss.conf" and isinstance(rp.get("spec"), dict) and "toks" in rp["spec"]:
+            # a behaviour exported by TLC: replay it into the current real code
+            fin, fout = sc.path("b.in"), sc.path("b.out")
+            vlib.write_ndjson(fin, [{"in": rp["in"], "ctx": rp["ctx"], "xss": rp["spec"]["xss"], "toks": rp["spec"]["toks"]}])
+            vlib.run([vh, "xss-replay", fin, fout], check=True, timeout=120)
+            mm = vlib.read_ndjson(fout)
+            print("specification (ctx %d) on %r: %s" % (rp["ctx"], show(rp["in"]), json.dumps(rp["spec"])[:600]))
+            print("real code now: %s" % (json.dumps(mm[0]["impl"])[:600] if mm else "agrees with the specification"))
+            return 1 if mm else 0
+        if kind == "sqli.conf" and rp.get("level") in ("lex", "pass", "check") and isinstance(rp.get("spec"), dict):
+            fin, fout = sc.path("b.in"), sc.path("b.out")
+            vlib.write_ndjson(fin, [rp["spec"]])
+            vlib.run([vh, "sqli-replay", fin, fout], check=True, timeout=120)
+            mm = vlib.read_ndjson(fout)
+            print("specification (%s level, mode %s) on %r: %s" % (rp["level"], rp.get("flags"), show(rp["in"]), json.dumps(rp["spec"])[:800]))
+            print("real code now: %s" % ("differs in %s: %s" % (mm[0]["why"], json.dumps(mm[0]["impl"])[:800]) if mm else "agrees with the specification"))
+            return 1 if mm else 0
+        if kind.startswith("xss."):
+            inputs = [rp[k] for k in ("in", "a", "b", "reduced") if isinstance(rp.get(k), list)]
+            if kind == "xss.pump":
+                fin = sc.path("pump.in")
+                vlib.write_ndjson(fin, [{"pre": rp["pre"], "rep": rp["rep"]}])
+                rc, out = vlib.run([vh, "xss-pump", fin, str(rp["size"]), str(rp["maxstack"])], timeout=120)
+                print("exit code %d\n%s" % (rc, out[-1500:]))
+                return 1 if rc != 0 else 0
+            if kind in ("xss.pred", "xss.dec", "xss.url"):
+                f = rp.get("f", "dec" if kind == "xss.dec" else "url")
+                res, out = _run(sc, vh, "xss-pred", [{"f": f, "in": rp["a"]}])
+                print("predicate %s(%r) in the real code: %s; required: %s" % (f, show(rp["a"]), res, rp.get("expect", [1])))
+                return 1 if res is None or res[0].get("r") != rp.get("expect", [1]) else 0
+            res, out = _run(sc, vh, "xss-api", [{"in": x} for x in inputs])
+            if res is None:
+                print("the real code crashed:\n" + out[-1500:])
+                return 1
+            for x, r in zip(inputs, res):
+                print("IsXSS(%r) = %s, contexts %s%s" % (show(x), r["xss"], r["ctx"], ", PANIC " + r["panic"] if r["panic"] else ""))
+                toks, _ = _run(sc, vh, "xss-toks", [{"in": x, "ctx": rp.get("ctx", 0)}])
+                if toks:
+                    print("   tokens (ctx %d): %s" % (rp.get("ctx", 0), toks[0].get("toks")))
+            if "spec" in rp:
+                print("specification: %s" % json.dumps(rp["spec"])[:800])
+            if kind == "xss.total":
+                return 1 if any(r["panic"] for r in res) else 0
+            if kind in ("xss.vec",):
+                return 0 if res[0]["xss"] else 1
+            if kind == "xss.c15":
+                return 1 if res[0]["xss"] else 0
+            if kind == "xss.or":
+                return 1 if res[0]["xss"] != any(res[0]["ctx"]) else 0
+            if kind == "xss.pair":
+                rel = rp.get("rel")
+                c = rp.get("ctx", 0)
+                if rel in ("case",):
+                    return 1 if res[0]["xss"] != res[1]["xss"] else 0
+                if rel == "nul":
+                    return 1 if res[0]["ctx"][c] != res[1]["ctx"][c] else 0
+                if rel == "embed":
+                    return 1 if res[0]["ctx"][c] != res[1]["ctx"][0] else 0
+                if rel == "prefix":
+                    return 1 if res[0]["ctx"][0] != res[1]["ctx"][0] else 0
+            return 1          # conformance / C17 replays: the printed comparison is the evidence
+        if kind.startswith("sqli."):
+            inputs = [rp[k] for k in ("in", "a", "b") if isinstance(rp.get(k), list)]
+            if kind == "sqli.pump":
+                fin = sc.path("pump.in")
+                vlib.write_ndjson(fin, [{"pre": rp["pre"], "rep": rp["rep"]}])
+                rc, out = vlib.run([vh, "sqli-pump", fin, str(rp["size"]), str(rp["maxstack"])], timeout=120)
+                print("exit code %d\n%s" % (rc, out[-1500:]))
+                return 1 if rc != 0 or '""' not in out.splitlines()[-1] else 0
+            res, out = _run(sc, vh, "sqli-modes", [{"in": x} for x in inputs], ["lex"] if kind in ("sqli.c16", "sqli.c18", "sqli.conf") else [])
+            if res is None:
+                print("the real code crashed:\n" + out[-1500:])
+                return 1
+            for x, r in zip(inputs, res):
+                print("IsSQLi(%r) = (%s, %r)%s" % (show(x), r["sqli"], bytes(r["fp"]).decode("latin1"), "  PANIC " + r["panic"] if r["panic"] else ""))
+                print("   passes executed: %s" % [(p["flags"], bytes(p["fp"]).decode("latin1")) for p in r["passes"]])
+                print("   fresh readings : %s" % {m: (bytes(v["fp"]).decode("latin1"), v["verdict"]) for m, v in r["modes"].items()})
+                if "lex" in r and rp.get("flags"):
+                    lx = r["lex"].get(str(rp["flags"]))
+                    if lx:
+                        print("   tokens (mode %s): %s" % (rp["flags"], [(chr(t["cat"]), t["pos"], t["len"], t["open"], t["close"]) for t in lx["toks"]]))
+            for k in ("spec", "expect", "clause"):
+                if k in rp:
+                    print("%s: %s" % (k, json.dumps(rp[k])[:800]))
+            if kind == "sqli.total":
+                return 1 if any(r["panic"] for r in res) else 0
+            if kind == "sqli.c03":
+                return 0 if res[0]["sqli"] else 1
+            if kind == "sqli.c14":
+                return 1 if res[0]["sqli"] else 0
+            if kind == "sqli.pair":
+                return 1 if (res[0]["sqli"], res[0]["fp"]) != (res[1]["sqli"], res[1]["fp"]) else 0
+            return 1
+        if kind == "time":
+            fin, fout = sc.path("t.in"), sc.path("t.out")
+            vlib.write_ndjson(fin, [{"api": rp["api"], "pre": rp["pre"], "rep": rp["rep"], "tail": rp.get("tail", [])}])
+            vlib.run([vh, "time-pump", fin, fout, str(rp["n"]), str(rp.get("factor", 4)), "3"], check=True, timeout=900)
+            m = vlib.read_ndjson(fout)[0]
+            print(json.dumps(m))
+            bad = m.get("skipped") or m["ns"] > 2000 * m["n"] or (m["ns"] >= 2000000 and m["ns2"] > 10 * m["ns"])
+            return 1 if bad else 0
+        if kind.startswith("api."):
+            print(json.dumps(rp, indent=1)[:3000])
+            print("re-run `bin/vcheck C05` to re-execute schedules, histories and the race-detector stress")
+            return 1
+        print("unknown replay kind %r" % kind)
+        return 2
     finally:
         sc.cleanup()
